@@ -23,9 +23,10 @@ def local_uses(fn, local):
             for o in ops:
                 pl = op_place(o) if o else None
                 if pl and pl['l'] == local:
-                    r.append(('stmt', rv['k'], st['lhs']['l'] if not st['lhs']['p'] else -1, bi))
+                    # a use of a *projection* of the Result (`(res as Err).0`, bound by a match arm) means its variant has been inspected
+                    r.append(('stmt', rv['k'] if not pl['p'] else 'payload', st['lhs']['l'] if not st['lhs']['p'] else -1, bi))
             if rv.get('p') and rv['p']['l'] == local:
-                r.append(('stmt', rv['k'], st['lhs']['l'] if not st['lhs']['p'] else -1, bi))
+                r.append(('stmt', rv['k'] if not rv['p']['p'] else 'payload', st['lhs']['l'] if not st['lhs']['p'] else -1, bi))
         t = b['term']
         if t['k'] == 'call':
             for o in t['args']:
